@@ -34,6 +34,7 @@ func nearMisses(s string) []string {
 	if len(s) > 0 {
 		cand = append(cand, s[:len(s)-1], s[1:])
 	}
+	cand = append(cand, novel...) // new literals of the source under test are candidate wrong values too
 	var out []string
 	for _, c := range cand {
 		if c != s {
@@ -96,15 +97,15 @@ func okAssertion(r *rand.Rand, now time.Time, i int) types.Assertion {
 	nb := now.Add(-time.Duration(r.Intn(3600)) * time.Second)
 	a := types.Assertion{
 		Version:      "2.0",
-		ID:           fmt.Sprintf("_a%d", i),
+		ID:           free(r, fmt.Sprintf("_a%d", i)),
 		IssueInstant: now.Add(-time.Minute),
 		Issuer:       &types.Issuer{Value: idpIss},
 		Subject: &types.Subject{
-			NameID: &types.NameID{Value: fmt.Sprintf("user%d@example.com", i)},
+			NameID: &types.NameID{Value: free(r, fmt.Sprintf("user%d@example.com", i))},
 			SubjectConfirmation: &types.SubjectConfirmation{
 				Method: bearer,
 				SubjectConfirmationData: &types.SubjectConfirmationData{
-					NotOnOrAfter: renderInstant(r, noa), Recipient: acsURL, InResponseTo: "_req1",
+					NotOnOrAfter: renderInstant(r, noa), Recipient: acsURL, InResponseTo: free(r, "_req1"),
 				},
 			},
 		},
@@ -113,16 +114,16 @@ func okAssertion(r *rand.Rand, now time.Time, i int) types.Assertion {
 			AudienceRestrictions: []types.AudienceRestriction{{Audiences: []types.Audience{{Value: audURI}}}},
 		},
 		AttributeStatement: &types.AttributeStatement{Attributes: []types.Attribute{
-			{Name: "mail", FriendlyName: "m", NameFormat: "nf", Values: []types.AttributeValue{{Value: "u@example.com"}}},
+			{Name: free(r, "mail"), FriendlyName: "m", NameFormat: "nf", Values: []types.AttributeValue{{Value: free(r, "u@example.com")}}},
 		}},
-		AuthnStatement: &types.AuthnStatement{SessionIndex: fmt.Sprintf("_s%d", i)},
+		AuthnStatement: &types.AuthnStatement{SessionIndex: free(r, fmt.Sprintf("_s%d", i))},
 	}
 	return a
 }
 
 func okResponse(r *rand.Rand, now time.Time, n int) *types.Response {
 	resp := &types.Response{
-		ID: "_r1", InResponseTo: "_req1", Destination: pick(r, acsURL, acsURL, ""), Version: "2.0",
+		ID: free(r, "_r1"), InResponseTo: free(r, "_req1"), Destination: pick(r, acsURL, acsURL, ""), Version: "2.0",
 		IssueInstant: now.Add(-time.Minute),
 		Status:       &types.Status{StatusCode: &types.StatusCode{Value: statusOK}},
 		Issuer:       &types.Issuer{Value: idpIss},
@@ -499,7 +500,7 @@ func runLogoutStruct(c *Ctx, n int) {
 		var obs, term string
 		expectOK := destOK && verOK && issOK
 		if isResp {
-			lr := &types.LogoutResponse{ID: "_l1", InResponseTo: "_q1", Destination: dest, Version: ver, Issuer: iss, IssueInstant: baseNow}
+			lr := &types.LogoutResponse{ID: free(r, "_l1"), InResponseTo: free(r, "_q1"), Destination: dest, Version: ver, Issuer: iss, IssueInstant: baseNow}
 			stKind := r.Intn(5)
 			switch stKind {
 			case 0:
@@ -516,7 +517,7 @@ func runLogoutStruct(c *Ctx, n int) {
 			term = logoutResponseTerm(lr)
 			csR.Add("("+configTerm(sp)+", "+term+")", obs, fmt.Sprintf("logout response dest=%q ver=%q issuer=%d status=%d", dest, ver, issKind, stKind))
 		} else {
-			lq := &saml2.LogoutRequest{ID: "_q1", Destination: dest, Version: ver, Issuer: iss, IssueInstant: baseNow, NameID: &types.NameID{Value: "u"}}
+			lq := &saml2.LogoutRequest{ID: free(r, "_q1"), Destination: dest, Version: ver, Issuer: iss, IssueInstant: baseNow, NameID: &types.NameID{Value: free(r, "u")}}
 			err = sp.ValidateDecodedLogoutRequest(lq)
 			obs = resVal(VC("tt"), err)
 			term = logoutRequestTerm(lq)
